@@ -67,11 +67,12 @@ func verifH_C10_journal_dataloss() {
 }
 
 // H-C10-roothash: rootHashFromBuffer (used on every index bootstrap) on an arbitrary 40-byte buffer whose first
-// record is checksummed never panics.
+// record (length word <= verifBoundRootRec) is checksummed never panics.
 func verifH_C10_roothash() {
 	verifPanicIsViolation()
 	verifUnwind(64)
 	buf := verifNondetBytes("rec", rootHashRecordSize())
+	verifAssume(readUint32(buf) <= verifBoundRootRec)
 	verifChecksummedRecordAt(buf, 0)
 	_, _ = rootHashFromBuffer(buf, 0)
 	verifReach("end")
